@@ -41,6 +41,8 @@ OPTION_VARIANTS: Dict[str, List[str]] = {
     'default': [],
     'source-order': ['--cls-member-order', 'source', '--mod-member-order', 'source'],
     'rtd-depth3': ['--theme', 'readthedocs', '--sidebar-expand-depth', '3', '--html-viewsource-base', 'http://example.org/src'],
+    # a template directory whose files differ in case only (the lookup is case-insensitive) plus an ordinary override
+    'template-dir': ['--template-dir', '<TPL>'],
 }
 
 
@@ -98,6 +100,8 @@ def mkproj(base: str, nroots: Any) -> List[str]:
         (p / 'star').mkdir()
         (p / 'star' / '__init__.py').write_text('from ._impl import *\n__all__ = ["alpha_fn", "Beta", "gamma_fn", "Delta", "epsilon"]\n')
         (p / 'star' / '_impl.py').write_text('def alpha_fn(): "a"\nclass Beta:\n    "b"\ndef gamma_fn(): "g"\nclass Delta(Beta):\n    "d"\nepsilon = 1\n"e"\ndef _private(): pass\n')
+        # one attribute claimed by two extensions at once (attrs and zope.interface): the result must not depend on the order they are loaded in
+        (p / 'ext2.py').write_text('import attr, zope.interface\n@attr.s(auto_attribs=True)\nclass Thing:\n    z: int = zope.interface.Attribute("zed")\n    w = attr.ib(default=zope.interface.Attribute("w"))\n')
         (p / 'z.pyi').write_text('def f() -> None: ...\n')
         (p / 'a.json').write_text('{}')
         (p / 'shapes.c').write_text('/* c */')
@@ -137,6 +141,14 @@ def judge_project(nroots: int, named: bool, variant: str, tier: str, res: Dict[s
         base = str(d)
         os.makedirs(os.path.join(base, 'cwd'))
         roots = mkproj(base, nroots)
+        if '<TPL>' in extra:
+            tpl = Path(base) / 'tpl'
+            tpl.mkdir()
+            (tpl / 'Extra2.css').write_text('/* upper */\n')
+            (tpl / 'extra2.css').write_text('/* lower */\n')
+            (tpl / 'extra.css').write_text('/* plain override */\n')
+            (tpl / 'notes.txt').write_text('copied as is\n')
+            extra = [str(tpl) if x == '<TPL>' else x for x in extra]
         ref = os.path.join(base, 'cwd', 'ref')
         rc, tail = run(roots, ref, 0, None, name, extra)
         res['evals'] += 1
